@@ -215,6 +215,13 @@ macro_rules! toml_internal {
         $crate::Value::Float(::std::f64::INFINITY)
     };
 
+    // Construct a Value from a negated number. An unsuffixed integer literal is
+    // typed `i64` here; left to `IntoDeserializer` it would default to `i32` and
+    // `-2147483649` would silently wrap.
+    (@value (- $v:tt)) => {
+        $crate::macros::number(-$v)
+    };
+
     // Construct a Value from any other type, probably string or boolean or number.
     (@value $v:tt) => {{
         // TODO: Implement this with something like serde_json::to_value instead.
@@ -399,6 +406,31 @@ macro_rules! toml_internal {
     (@trailingcomma ($($args:tt)*) $first:tt $($rest:tt)+) => {
         $crate::toml_internal!(@trailingcomma ($($args)* $first) $($rest)+);
     };
+}
+
+// The numbers a TOML document can hold. Being implemented for exactly one
+// integer and one float type, it lets a bare literal be inferred as that type.
+#[doc(hidden)]
+pub trait Number {
+    fn into_value(self) -> Value;
+}
+
+impl Number for i64 {
+    fn into_value(self) -> Value {
+        Value::Integer(self)
+    }
+}
+
+impl Number for f64 {
+    fn into_value(self) -> Value {
+        Value::Float(self)
+    }
+}
+
+// Called when parsing a negated number.
+#[doc(hidden)]
+pub fn number<N: Number>(n: N) -> Value {
+    n.into_value()
 }
 
 // Called when parsing a `key = value` pair.
